@@ -369,7 +369,11 @@ func (tb *LTable) Next(key LValue) (LValue, LValue) {
 					}
 				}
 			}
-			if tb.array == nil || index == len(tb.array) {
+			// index > len(tb.array): the key was an array index when it was returned, but the array
+			// part has shrunk since (table.remove during the traversal); unless the key lives in the
+			// hash part now, the array part is exhausted and the hash part starts
+			_, inhash := tb.k2i[key]
+			if tb.array == nil || index == len(tb.array) || (index > len(tb.array) && !inhash) {
 				if (tb.dict == nil || len(tb.dict) == 0) && (tb.strdict == nil || len(tb.strdict) == 0) {
 					return LNil, LNil
 				}
